@@ -2167,7 +2167,7 @@ def _pack_layout(layout):
     # Project indexed arrays
     elif isinstance(layout, ak._util.indexedoptiontypes):
         if isinstance(layout.content, ak._util.optiontypes):
-            return layout.simplify()
+            return _pack_layout(layout.simplify())
 
         index = nplike.asarray(layout.index)
         new_index = nplike.zeros_like(index)
@@ -2191,7 +2191,7 @@ def _pack_layout(layout):
 
     # Project indexed arrays
     elif isinstance(layout, ak._util.indexedtypes):
-        return layout.project()
+        return _pack_layout(layout.project())
 
     # ListArray performs both ordering and resizing
     elif isinstance(
@@ -2298,7 +2298,7 @@ def _pack_layout(layout):
             return _pack_layout(layout)
 
         if not isinstance(ak.type(layout.content), ak.types.PrimitiveType):
-            return layout.toIndexedOptionArray64()
+            return _pack_layout(layout.toIndexedOptionArray64())
 
         return ak.layout.BitMaskedArray(
             layout.mask,
@@ -2317,7 +2317,7 @@ def _pack_layout(layout):
             return _pack_layout(layout)
 
         if not isinstance(ak.type(layout.content), ak.types.PrimitiveType):
-            return layout.toIndexedOptionArray64()
+            return _pack_layout(layout.toIndexedOptionArray64())
 
         return ak.layout.ByteMaskedArray(
             layout.mask,
@@ -2328,7 +2328,7 @@ def _pack_layout(layout):
         )
 
     elif isinstance(layout, ak.layout.VirtualArray):
-        return layout.array
+        return _pack_layout(layout.array)
 
     elif isinstance(layout, ak.partition.PartitionedArray):
         return layout
